@@ -71,6 +71,23 @@ pub fn log(item: Item) -> u64 {
     })
 }
 
+/// The items logged from sequence number `from` on (hook events converted with the acknowledgement
+/// identities known so far).
+pub fn items_since(from: u64) -> Vec<Item> {
+    RUN.with(|r| {
+        let r = r.borrow();
+        let ids = &r.ack_ids;
+        let resolve = |addr: usize| ids.get(&addr).copied().unwrap_or(NOBODY);
+        r.log[(from as usize).min(r.log.len())..]
+            .iter()
+            .map(|raw| match raw {
+                Raw::I(i) => i.clone(),
+                Raw::H { role, ev } => Item::Hook { role: role.clone(), ev: convert_hook(ev, &resolve) },
+            })
+            .collect()
+    })
+}
+
 pub fn seq() -> u64 {
     RUN.with(|r| r.borrow().log.len() as u64)
 }
@@ -582,6 +599,8 @@ pub fn body() {
             log(Item::FinalRead { kind, key: k, val: vals[0] });
         }
     }
+    // the agreement reads may have handed buffers over: let the consumer drain them
+    sim::await_idle(Role::Consumer);
     log(Item::Obs(observe(&cache, "post")));
     if let Some(drv) = online.as_mut() {
         drv.finish(&cache);
